@@ -38,8 +38,11 @@ inductive Step (D : Type) where
   /-- `raise_or_collect` called inside `raw_decode`; the returned error is not yielded. -/
   | collect (e : Err)
   /-- `yield context.<kind>_error(validation, …)` written in the generator itself
-      (missing element schemas.py:1365/1598, empty selection 1380, references 1393-1404). -/
-  | direct (e : Err)
+      (missing element schemas.py:1365/1598, empty selection 1380, references 1393-1404).
+      `inSkip`: the event also exists in a skip-mode run.  True for the missing-element error;
+      false for the reference check, whose input (`context.id_map`) is only filled by the
+      non-skip branch of the simple-type decoders (simple_types.py:715-719 return before 761). -/
+  | direct (e : Err) (inSkip : Bool)
   /-- `yield from context.errors; context.errors.clear()` (schemas.py:1373-1374, 1602-1604). -/
   | flush
   /-- `yield result` (schemas.py:1609-1610). -/
@@ -71,11 +74,11 @@ def gen {D} (m : Mode) : List (Step D) → List Err → Gen D
       | .strict => ⟨[], some e⟩
       | .lax => gen m k (buf ++ [e])
       | .skip => gen m k buf
-  | .direct e :: k, buf =>
+  | .direct e inSkip :: k, buf =>
       match m with
       | .strict => ⟨[], some e⟩
       | .lax => (gen m k (buf ++ [e])).cons (.err e)
-      | .skip => (gen m k buf).cons (.err e)
+      | .skip => if inSkip then (gen m k buf).cons (.err e) else gen m k buf
   | .flush :: k, buf => (gen m k []).prepend (buf.map .err)
   | .result d :: k, buf => (gen m k buf).cons (.data d)
   | .stop :: _, _ => ⟨[], none⟩
@@ -237,7 +240,7 @@ def cliExit (fs : List FileRes) : Nat := osStatus (cliCode fs)
     (schemas.py:1365-1366 `yield …; return`, 1391 and 1612-1613 references at the very end). -/
 def tail2 {D} : List (Step D) → Bool
   | [] => true
-  | .direct _ :: k => tail2 k
+  | .direct _ _ :: k => tail2 k
   | .result _ :: k => tail2 k
   | .stop :: _ => true
   | .collect _ :: _ => false
@@ -247,7 +250,7 @@ def tail2 {D} : List (Step D) → Bool
 def wf {D} : List (Step D) → Bool → Bool
   | [], pending => !pending
   | .collect _ :: k, _ => wf k true
-  | .direct _ :: k, pending => !pending && tail2 k && wf k false
+  | .direct _ _ :: k, pending => !pending && tail2 k && wf k false
   | .flush :: k, _ => wf k false
   | .result _ :: k, pending => !pending && wf k false
   | .stop :: _, pending => !pending
@@ -256,7 +259,7 @@ def wf {D} : List (Step D) → Bool → Bool
 def events {D} : List (Step D) → List Err
   | [] => []
   | .collect e :: k => e :: events k
-  | .direct e :: k => e :: events k
+  | .direct e _ :: k => e :: events k
   | .flush :: k => events k
   | .result _ :: k => events k
   | .stop :: _ => []
@@ -265,7 +268,7 @@ def events {D} : List (Step D) → List Err
 def results {D} : List (Step D) → List D
   | [] => []
   | .collect _ :: k => results k
-  | .direct _ :: k => results k
+  | .direct _ _ :: k => results k
   | .flush :: k => results k
   | .result d :: k => d :: results k
   | .stop :: _ => []
